@@ -98,7 +98,16 @@ namespace
         // 3 = setbuf() onto a fresh buffer of the same capacity (the old block is freed: a stale pointer trips ASan)
         // 4 = setbuf() onto a fresh buffer of capacity newcap (given for how == 4 only)
         virtual void restart(int how, int newcap = 0) = 0;
+        // the owner moves the receiver object to another place in the middle of the traffic (an element of a container that grows,
+        // a port table that is compacted): the copy goes on where the original stood, on the same buffer
+        virtual void relocate(int how) = 0;
+        int form = 0; // how the owner hands a byte over: as char, signed char, unsigned char, or as an int widened from one of them
     };
+    // habits of the receiver's owner in the current run (set by the link worlds from the plan, 0 = the plain ones)
+    struct OwnerHabits
+    {
+        int form = 0, relocate_every = 0, relocate_how = 0;
+    } g_owner;
     struct RxCfg : Rx
     {
         std::unique_ptr<uint8_t[]> buf;
@@ -107,7 +116,17 @@ namespace
         RxCfg(const gstuff_context &ctx, int cap) : buf(new uint8_t[cap]), cap(cap), r(ctx) { r.init(buf.get(), cap); }
         Status put(uint8_t c) override
         {
-            switch (r.newchar((char)c))
+            int sts;
+            switch (form)
+            {
+            default: sts = r.newchar((char)c); break;
+            case 1: sts = r.newchar((signed char)c); break;
+            case 2: sts = r.newchar((unsigned char)c); break;
+            case 3: sts = r.newchar((int)(signed char)c); break; // a byte widened from a signed buffer element
+            case 4: { int8_t v = (int8_t)c; sts = r.newchar(v); break; }
+            case 5: { uint8_t v = c; sts = r.newchar(v); break; }
+            }
+            switch (sts)
             {
             case GSTUFF_CONTINUE: return ST_CONT;
             case GSTUFF_NEWPACKAGE: return ST_NEWPKG;
@@ -128,6 +147,28 @@ namespace
         }
         size_t stored() override { return r.size(); }
         void touch() override { (void)r.cstr(); }
+        void relocate(int how) override
+        {
+            if (how % 2 == 0)
+            {
+                // copy construction to the new place, the old object dies (what a growing std::vector of receivers does)
+                alignas(gstuff_autorecv) unsigned char elsewhere[sizeof(gstuff_autorecv)];
+                gstuff_autorecv *moved = new (elsewhere) gstuff_autorecv(r);
+                r.~gstuff_autorecv();
+                memset((void *)&r, 0xEE, sizeof r);
+                new (&r) gstuff_autorecv(*moved);
+                moved->~gstuff_autorecv();
+            }
+            else
+            {
+                // assignment into another, already initialised receiver object and back
+                gstuff_autorecv other(r);
+                gstuff_autorecv blank(other);
+                blank.init(buf.get(), cap);
+                r = blank;
+                r = other;
+            }
+        }
         void restart(int how, int newcap = 0) override
         {
             if (how == 4) cap = newcap;
@@ -178,6 +219,12 @@ namespace
         }
         size_t stored() override { return (size_t)sline_size(&r.line); }
         void touch() override { (void)sline_getline(&r.line); }
+        void relocate(int) override
+        {
+            gstuff_autorecv_v1 moved = r; // a C struct: plain structure assignment
+            memset((void *)&r, 0xEE, sizeof r);
+            r = moved;
+        }
         void restart(int how, int newcap = 0) override
         {
             std::unique_ptr<uint8_t[]> fresh;
@@ -416,6 +463,8 @@ namespace
     {
         const Alphabet &a = alpha_of(variant);
         std::unique_ptr<Rx> rx(make_rx(variant, cap));
+        rx->form = g_owner.form;
+        if (g_owner.form) probe("bytes_handed_over_as_another_integer_type");
         // a second receiver of another framing variant works next to the one under test on clean traffic of its own (one byte
         // of it per byte of the stream): whatever happens on the first link, the second delivers every one of its frames
         int by_variant = (variant + 1 + (int)(stream.size() % 2)) % VAR_N;
@@ -462,6 +511,11 @@ namespace
             bool anch = ref.anchored, valid = ref.valid, esc = ref.esc;
             Bytes U = ref.U;
             Status st = rx->put(b);
+            if (g_owner.relocate_every && (j + 1) % (size_t)g_owner.relocate_every == 0)
+            {
+                rx->relocate(g_owner.relocate_how + (int)j);
+                probe("receiver_object_relocated_in_mid_traffic");
+            }
             ls.bytes++;
             tr.u(((uint64_t)b << 8) | (uint64_t)st);
             if (tr.verbose) tr.lines.push_back("byte " + std::to_string(j) + " " + hex(Bytes{b}) + " -> " + ST_NAME[st] + " stored=" + std::to_string(rx->stored()));
@@ -677,6 +731,11 @@ namespace
             // earlier traffic was one complete frame damaged inside an escape pair, no re-initialisation either; cfg[3] = 6: a complete
             // frame with a wrong CRC; cfg[3] = 7: a frame that lost its tail (a proper prefix), no re-initialisation
             p.cfg = {variant, enc, cap, !faults && r.chance(1, 4) ? (int64_t)r.range(1, 7) : 0, (int64_t)r.below(64)};
+            // cfg[5..7]: habits of the receiver's owner - the integer type a byte is handed over as (configurable receiver), and a
+            // relocation of the receiver object after every cfg[6]-th byte (0: never) by copy construction / by assignment
+            p.cfg.push_back(r.chance(1, 3) ? (int64_t)r.below(6) : 0);
+            p.cfg.push_back(r.chance(1, 4) ? (int64_t)r.range(1, 23) : 0);
+            p.cfg.push_back((int64_t)r.below(2));
             bool sweep = faults && r.chance(1, 3) && longest <= 200;
             if (faults && r.chance(1, 3))
             {
@@ -758,6 +817,13 @@ namespace
             // capacities 2..401, or (cfg[2] >= 60000) a huge buffer of up to 200000 bytes: sizes around the 16-bit boundary
             int cap = p.c(2) >= 60000 ? (int)std::min<int64_t>(p.c(2), 200000) : (int)mod(p.c(2) - 2, 400) + 2;
             const Alphabet &a = alpha_of(variant);
+            struct HabitsGuard
+            {
+                ~HabitsGuard() { g_owner = OwnerHabits(); }
+            } habits_guard;
+            g_owner.form = (int)mod(p.c(5, 0), 6);
+            g_owner.relocate_every = (int)mod(p.c(6, 0), 24);
+            g_owner.relocate_how = (int)mod(p.c(7, 0), 2);
             // ---- assemble pieces: encode every frame with the real encoder, check the frame format (C04 part 2)
             std::vector<Piece> pieces;
             std::vector<FrameMeta> frames;
